@@ -420,7 +420,7 @@ fn run_scenario<T: Tw, D: Device<T>>(
 			if let (true, Some(i0), Some(i1)) = (T::BOUNDED, dev.interpolated(0.0), dev.interpolated(1.0)) {
 				// a + (b - a) * 1 carries rounding error proportional to the larger of |a|, |b|
 				let scale = p.comps().iter().chain(v.comps().iter()).fold(0.0f64, |m, c| m.max(c.abs()));
-				let tol = 8.0 * T::EPS * scale + T::ABS + 1e-300;
+				let tol = 8.0 * T::EPS * scale + T::ABS + T::EPS * 1.2e-37 + 1e-300;
 				let close = |a: &T, b: &T| a.comps().iter().zip(b.comps()).all(|(x, y)| (x - y).abs() <= tol);
 				if !close(&i0, &p) || !close(&i1, &v) {
 					return Err(format!("update {}: interpolated_value(0/1) = {:?}/{:?} but previous/current = {:?}/{:?}", n, i0, i1, p, v));
@@ -439,7 +439,8 @@ fn run_scenario<T: Tw, D: Device<T>>(
 		let tgtc = a.op.target.comps();
 		let scale = fromc.iter().chain(tgtc.iter()).fold(0.0f64, |m, c| m.max(c.abs()));
 		let span = fromc.iter().zip(&tgtc).fold(0.0f64, |m, (x, y)| m.max((x - y).abs()));
-		let tol = 16.0 * T::EPS * scale + 1e-11 * span + T::ABS + 1e-300;
+		// (the EPS * 1.2e-37 term: below f32::MIN_POSITIVE the spacing of f32 values is an absolute 1.4e-45, not relative)
+		let tol = 16.0 * T::EPS * scale + 1e-11 * span + T::ABS + T::EPS * 1.2e-37 + 1e-300;
 		let vc = v.comps();
 		// the value never leaves the interval between start and target
 		if T::BOUNDED {
